@@ -163,7 +163,21 @@ def _check_path(ctx, fn, pre, c, p, topo, el, d, dim, nn, ne, nf):
         hy += [sarr.lemma_mul_mono(cnt, conn.get((C(s), w[1])), nent) for cnt, nent, conn, ns in
                ((nv_, NV, topo.t, nn), (ne_, NE, topo.t2e, ne), (nf_, NF, topo.t2f, nf)) if conn is not None for s in range(ns)]
         hy.append(sarr.lemma_mul_mono(ni_, w[1], NT))
-        ctx.prove("%s/total/upper" % pre, fn, tm.le(N, total), hyps=hy, clause="N <= off_interior + n_i*nt")
+        # split by the block / slot the attaining row lies in (each case is a small query; the cases cover all rows by linear arithmetic)
+        w0 = w[0]
+        cases = []
+        for name, nslots, cnt, base, tab, conn, present in kinds:
+            if not isinstance(tab, SArr):
+                continue
+            for s in range(nslots):
+                lo = tm.add(base, tm.mul(C(s), cnt))
+                cases.append(("%s%d" % (name, s), tm.and_(present, tm.le(lo, w0), tm.lt(w0, tm.add(lo, cnt)))))
+        cases.append(("interior", tm.and_(tm.le(base_i, w0), tm.lt(w0, tm.add(base_i, ni_)))))
+        for cname, cond in cases:
+            ctx.prove("%s/total/upper/%s" % (pre, cname), fn, tm.le(N, total), hyps=hy + [cond], first="cvc5",
+                      clause="the attained maximum lies in block %s  =>  N <= off_interior + n_i*nt" % cname)
+        ctx.prove("%s/total/upper/cover" % pre, fn, tm.or_(*[cnd for _, cnd in cases]), hyps=hy + [tm.le(C(0), w0), tm.lt(w0, nrows)],
+                  clause="every row index 0 <= row < Nbfun lies in exactly one block/slot range")
 
 
 def offsets(dim, nv_, ne_, nf_, ni_, NV, NE, NF, NT):
@@ -244,4 +258,112 @@ def standin_dofs(ctx):
 
 
 UNITS["standin/dofs"] = standin_dofs
+def basis_wiring(ctx):
+    """AbstractBasis.__init__: the numbering of a basis is Dofs(mesh, elem) for exactly its own mesh and element, or the caller's dofs object"""
+    import skfem as fem
+    import skfem.assembly.basis.abstract_basis as AB
+    fn = ctx.function(AB.AbstractBasis.__init__)
+    rec = []
+    real = AB.Dofs
+
+    class Rec(real):
+        def __init__(self, mesh, elem, *a, **k):
+            rec.append((mesh, elem))
+            real.__init__(self, mesh, elem, *a, **k)
+    AB.Dofs = Rec
+    try:
+        cases = [(fem.MeshTri(), fem.ElementTriP1()), (fem.MeshTri(), fem.ElementTriP1DG()), (fem.MeshTri(), fem.ElementTriP2()), (fem.MeshQuad(), fem.ElementQuad1DG()),
+                 (fem.MeshLine(), fem.ElementLineP1DG()), (fem.MeshHex(), fem.ElementHex1DG()), (fem.MeshTet(), fem.ElementTetP1()), (fem.MeshTri(), fem.ElementDG(fem.ElementTriP1()))]
+        for m, e in cases:
+            del rec[:]
+            b = fem.CellBasis(m, e)
+            ok = len(rec) == 1 and rec[0][0] is m and rec[0][1] is e and isinstance(b.dofs, Rec)
+            ctx.fact("basis/dofs-wiring/%s" % type(e).__name__, fn, ok, "the basis must number its DOFs with Dofs(mesh, elem) of its own element (got %d constructions)" % len(rec),
+                     clause="dofs is None  =>  self.dofs == Dofs(mesh, elem) for this mesh and THIS element object (subclasses of the mesh's own element type included)",
+                     backend="path-execution", replay=dict(kind="mesh_case", what="dofs", only="tri2", seed=0, tier="quick"))
+            del rec[:]
+            given = real(m, e)
+            b2 = fem.CellBasis(m, e, dofs=given)
+            ctx.fact("basis/dofs-given/%s" % type(e).__name__, fn, b2.dofs is given and not rec, "a dofs object handed in by the caller must be used as it is", backend="path-execution")
+    finally:
+        AB.Dofs = real
+
+
+UNITS["basis/dofs-wiring"] = basis_wiring
+
+
+def _doflocs_unit(label, kind, is_global):
+    """DOFLOC: on every two-cell gluing configuration (enumeration of props.C03) the two cells map the reference location of a shared DOF to the same point"""
+    def run(ctx):
+        from props import C03
+        from contracts import catalog
+        from skfem.assembly.dofs import Dofs
+        from skv import pmode, poly
+        import skfem.element as E
+        e = getattr(E, label)() if is_global else catalog.make(label)
+        fn = ctx.function(Dofs.__init__, element=label)
+        X = np.asarray(e.doflocs, dtype=float)
+        cfgs = list(C03.configs(kind, ctx.tier))
+        if kind == "tri" and e.facet_dofs <= 1:
+            cfgs += list(C03.configs(kind, ctx.tier, unsorted=True))
+        if kind == "tet" and ctx.tier == "quick":
+            cfgs = cfgs[::4]
+        n = 0
+        for name, p, t, kw in cfgs:
+            m = C03.build_mesh(kind, p, t, kw)
+            if m.t.shape[1] != 2:
+                continue
+            edofs = Dofs(m, e).element_dofs
+            stub = C03.Stub(m, C03.exact(m.p))
+            rows = [j for j in range(min(X.shape[0], edofs.shape[0])) if not np.isnan(X[j]).any()]
+            if not rows:
+                continue
+            Xr = np.empty((X.shape[1], len(rows)), dtype=object)
+            for a, j in enumerate(rows):
+                for i in range(X.shape[1]):
+                    Xr[i, a] = S(tm.const(Fraction(float(X[j, i])).limit_denominator(1000), tm.REAL))
+            with pmode.symbolic_numpy():
+                mp = C03.make_mapping(kind, stub)
+                Fx = mp.F(Xr)                                  # (dim, 2, nrows)
+            loc = {}
+            bad = []
+            for k in (0, 1):
+                for a, j in enumerate(rows):
+                    g = int(edofs[j, k])
+                    pt = tuple(poly.term_to_rat(tm.lift(Fx[i, k, a])) for i in range(X.shape[1]))
+                    if g in loc and not all((u - v).is_zero() for u, v in zip(loc[g][0], pt)):
+                        bad.append((g, loc[g][1], (k, j)))
+                    loc.setdefault(g, (pt, (k, j)))
+            n += 1
+            ctx.fact("doflocs/%s/%s" % (label, name), fn, not bad,
+                     "global DOFs %s are located at different points by the two cells (cell, local index): %s; cells %s" % ([b_[0] for b_ in bad][:4], [b_[1:] for b_ in bad][:2], m.t.T.tolist()),
+                     clause="F_K(elem.doflocs[i]) == F_K'(elem.doflocs[i']) whenever element_dofs[i,K] == element_dofs[i',K']  (the DOF location table is single valued)",
+                     backend="ground-rational", replay=dict(kind="mesh_case", what="dofs", only="tri2", seed=0, tier="quick"))
+        ctx.fact("doflocs/%s/configurations" % label, fn, n > 0 or not rows_exist(X), "no configuration examined", backend="enumeration")
+    return run
+
+
+def rows_exist(X):
+    return bool(len(X)) and not np.isnan(np.asarray(X, dtype=float)).all()
+
+
+def _register_doflocs():
+    from contracts import catalog
+    for is_global, items in ((False, catalog.reference_elements()), (True, catalog.global_elements())):
+        for label, cls_, args in items:
+            try:
+                e = cls_(*args)
+            except Exception:
+                continue
+            if getattr(e, "doflocs", None) is None or getattr(e, "refdom", None) is None:
+                continue
+            kind = catalog.refdom_kind(e.refdom)
+            if kind == "point":
+                continue
+            UNITS["doflocs/%s" % label] = _doflocs_unit(label, kind, is_global)
+
+
+_register_doflocs()
+
+
 HEAVY_FIRST = ["standin/dofs", "dofs/hex", "dofs/tet", "dofs/wedge"]
